@@ -83,6 +83,26 @@ def run(ctx):
             ctx.ob('2d2 reseek-from-last_key', 'K4-provenance', fn, 'the position is re-established from the iterator\'s last_key', '.BTreeIterator.last_key' in fl, str(sorted(f for f in fl if 'BTreeIterator' in f)))
             for s in sk:
                 lib.precedes(ctx, '2e reseek-on-new-tree', b, opens, [s], 'the re-seek happens on the re-opened tree')
+    # the tree side honours the same sentinels as the overlay side (CommitOverlay::btree_prev(Start) / btree_next(End) answer None):
+    # a backward step from the start position and a forward step from the end position yield nothing, whatever the tree cursor
+    # would find (a re-seek to "first key >= []" lands ON an empty key; an unpositioned cursor starts from the far end)
+    nbk = ctx.body("btree::iter::BTreeIterator::<'a>::next_backend")
+    if nbk:
+        ok = False
+        for bi in nbk.normal_blocks():
+            for st in nbk.blocks[bi]['s']:
+                if st['k'] == 'assign' and st['p'] == [0] and st['r']['k'] == 'agg' and st['r']['ak'] == 'Adt:std::result::Result::Ok' and st['r']['a'] and op_place(st['r']['a'][0]) is not None:
+                    l = op_place(st['r']['a'][0])[0]
+                    ds = [d for d in nbk.defs().get(l, []) if d[2] == 'assign']
+                    if ds and all(d[3]['r']['k'] == 'agg' and d[3]['r']['ak'] == 'Adt:std::option::Option::None' for d in ds):
+                        calls, fields, binops = lib.guard_influences(nbk, bi)
+                        dirp = [l2 for l2, n in nbk.names.items() if n == 'direction' and 1 <= l2 <= nbk.argc]
+                        deps_dir = bool(dirp) and dirp[0] in lib.guard_params(nbk, bi)
+                        if '.BTreeIterator.last_key' in fields and deps_dir:
+                            ok = True
+        ctx.ob('2n sentinel-positions-answered-without-the-cursor', 'K3-guard', nbk.path,
+               'next_backend returns nothing, depending only on (last_key, direction), for a backward step from Start and a forward step from End', ok,
+               'no early Ok(None) decided by last_key and direction: the tree cursor is asked even at the sentinel positions')
     # repositioning forgets the parked tree entry: every iterator method that re-seeks the tree cursor (seek, seek_to_last, ...)
     # resets pending_backend on all its success paths - the parked entry belongs to the old position (siblings must agree)
     nre = 0
